@@ -67,7 +67,7 @@ def run(ctx):
         jax.config.update("jax_enable_x64", True)
     ncirc = ctx.n(160, 5000)
     base = ctx.shard * 100000
-    min_circ = 6 if ctx.quick else 30
+    min_circ = 6 if ctx.quick else 10
 
     ASYM = ("PhaseShift", "U1", "ControlledPhaseShift", "CPhaseShift00", "CPhaseShift01", "CPhaseShift10", "C(PhaseShift)")
 
